@@ -125,6 +125,42 @@ class Ctx:
         self.notes.append(s)
 
 
+class SubCtx:
+    """View of a Ctx that files every rule of a borrowed check under `<prefix><rule id without 'R-'>`: lets one property's
+    check run the rules of another property's check (whose truth it also depends on) without mixing rule names.  The
+    borrowed check's decided / undecided texts are discarded."""
+
+    def __init__(self, ctx: Ctx, prefix: str):
+        object.__setattr__(self, "_ctx", ctx)
+        object.__setattr__(self, "_prefix", prefix)
+
+    def _r(self, rid):
+        return self._prefix + (rid[2:] if rid.startswith("R-") else rid)
+
+    def __getattr__(self, k):
+        return getattr(self._ctx, k)
+
+    def __setattr__(self, k, v):
+        if k in ("decided", "undecided"):
+            return
+        setattr(self._ctx, k, v)
+
+    def rule(self, rid, text):
+        self._ctx.rule(self._r(rid), text)
+
+    def ok(self, rid, *a, **kw):
+        self._ctx.ok(self._r(rid), *a, **kw)
+
+    def bad(self, rid, *a, **kw):
+        self._ctx.bad(self._r(rid), *a, **kw)
+
+    def check(self, cond, rid, *a, **kw):
+        return self._ctx.check(cond, self._r(rid), *a, **kw)
+
+    def floor(self, rid, n):
+        self._ctx.floor(self._r(rid), n)
+
+
 def load_known():
     if not os.path.exists(KNOWN_FILE):
         return {"known": [], "fixed": []}
